@@ -305,7 +305,10 @@ class Check:
         proof_failure = None
         if bad:
             proof_failure = 'hygiene: ' + '; '.join(bad[:5])
-        if not b['coq_ok']:
+        if not b['coq_ok'] and 'translator:' in b['coq_log'] and 'Error' not in b['coq_log']:
+            msgs = [l for l in b['coq_log'].splitlines() if l.startswith('translator:')]
+            proof_failure = 'the translator no longer recognises the source (treated as a failed obligation): ' + ' | '.join(msgs[:4])
+        elif not b['coq_ok']:
             f, ln, err = first_coq_error(b['coq_log'])
             proof_failure = 'Coq build failed in %s line %d (%s): %s' % (f, ln, enclosing_theorem(f, ln), err.strip())
         else:
